@@ -49,6 +49,21 @@ CLAIMS = {
                   "per-statement adjacency property.",
         technique="finite-domain abstract interpretation + path-sensitive pairing (must-precede) analysis",
     ),
+    "C05": dict(
+        category="other",
+        text="solve_conflict and calculate_rule_precedence/associativity touch precedences only through "
+             "comparisons, so their behaviour is a finite table: it is extracted by abstract interpretation of "
+             "every structured path over {<,=,>} x {no_assoc,ltor,rtol} and compared with the readme rule (9+4+2 "
+             "cases, exhaustive). The conflict-detection loop of transitions() is explored exhaustively as a "
+             "finite-state system (flags, entry kind) x item class and its outcomes compared with the documented "
+             "ones for every order of items. PRECPASS shows the numbers the user writes reach the tables "
+             "(constructors, getters, rule operators), ORDER that the tables are filled in dependency order, "
+             "PRECFLOW that nothing else reads them, IDX that RULE/RINFO/TERM indices are not confused.",
+        design_ref="DESIGN.md 5/C05",
+        note=TB + " Not decided: that every expression groups accordingly (LR theory + C01).",
+        technique="finite-domain abstract interpretation + finite-state exploration + units-of-measure (index space) "
+                  "inference over resolved ASTs",
+    ),
 }
 
 NOT_APPLICABLE = {
